@@ -13,6 +13,64 @@ class IOFault(OSError):
     pass
 
 
+def _planned(plan, k, offset, length):
+    """Fault planned for this read: plans are keyed by read index k or by (offset, length) (consumed once)."""
+    if not plan:
+        return None
+    if k in plan:
+        return plan[k]
+    key = (offset, length)
+    if key in plan:
+        return plan.pop(key)
+    return None
+
+
+class CompletionController:
+    """Owns the completion order of concurrent blob range reads: a request completes only when it has
+    the lowest drawn rank among the requests currently waiting and every request that can be
+    outstanding (min(workers, remaining)) has arrived.  One completion at a time."""
+    def __init__(self, ranks, total, workers=20):
+        self.ranks = list(ranks)
+        self.total = total
+        self.workers = workers
+        self.cv = threading.Condition()
+        self.waiting = {}
+        self.completed = 0
+        self.order = []
+        self.inflight = None
+        self.last_arrival = 0.0
+
+    def rank(self, k):
+        return (self.ranks[(k - 1) % len(self.ranks)] if self.ranks else 0, k)
+
+    def wait_turn(self, k):
+        import time
+        with self.cv:
+            self.waiting[k] = self.rank(k)
+            self.last_arrival = time.time()
+            self.cv.notify_all()
+            while True:
+                expected = min(self.workers, max(1, self.total - self.completed))
+                # all requests that can be outstanding have arrived, or arrivals have gone quiet (calls that
+                # read sequentially never have more than one outstanding); the clock only keeps the
+                # harness live, it is no part of the oracle
+                full = len(self.waiting) >= expected or time.time() - self.last_arrival > 0.03
+                mine = min(self.waiting.values()) == self.waiting[k]
+                if self.inflight is None and mine and full:
+                    self.inflight = k
+                    del self.waiting[k]
+                    self.order.append(k)
+                    return
+                self.cv.wait(0.01)
+
+    def done(self, k):
+        with self.cv:
+            if self.inflight == k:
+                self.inflight = None
+            self.completed += 1
+            self.cv.notify_all()
+
+
 class CountingFile:
     """A file object for SgzReader(file): logs every range read; can inject faults."""
     def __init__(self, path, name=None):
@@ -44,7 +102,7 @@ class CountingFile:
             self._f.seek(off)
             data = self._f.read(length)
             self._pos = off + len(data)
-            kind = (self.plan or {}).get(k)
+            kind = _planned(self.plan, k, off, length)
             if kind == "exception":
                 self.log.append((off, length, -1))
                 raise IOFault(f"injected read failure at read #{k} (offset {off}, length {length})")
@@ -95,7 +153,10 @@ class CountingBlob:
             with open(self._path, "rb") as f:
                 f.seek(offset)
                 data = f.read(length)
-            kind = (self.plan or {}).get(k)
+            with self.lock:
+                kind = _planned(self.plan, k, offset, length)
+            if self.controller is not None:
+                self.controller.done(k)
             if kind == "exception":
                 with self.lock:
                     self.log.append((offset, length, -1))
